@@ -299,10 +299,23 @@ class SReal:
 
     # --- helpers
     @staticmethod
+    def _isinf(o):
+        return isinstance(o, float) and (o == float("inf") or o == float("-inf"))
+
+    @staticmethod
     def lift(o):
         if isinstance(o, SReal):
             return o
         if _is_num(o):
+            if isinstance(o, float) and (o != o or o in (float("inf"), float("-inf"))):
+                return None
+            try:
+                import numpy as _np
+
+                if isinstance(o, _np.floating) and not _np.isfinite(o):
+                    return None
+            except ImportError:
+                pass
             return ctx().const(o)
         if type(o).__name__ in ("SymArray", "ndarray") and getattr(o, "ndim", 1) == 0:
             return SReal.lift(o[()])
@@ -334,6 +347,8 @@ class SReal:
 
     # --- arithmetic
     def __add__(self, o):
+        if SReal._isinf(o):
+            return o
         b = SReal.lift(o)
         if b is None:
             return self._arr(o, lambda e: self + e)
@@ -342,12 +357,16 @@ class SReal:
     __radd__ = __add__
 
     def __sub__(self, o):
+        if SReal._isinf(o):
+            return -o
         b = SReal.lift(o)
         if b is None:
             return self._arr(o, lambda e: self - e)
         return ctx().norm(self.f - b.f)
 
     def __rsub__(self, o):
+        if SReal._isinf(o):
+            return o
         b = SReal.lift(o)
         if b is None:
             return self._arr(o, lambda e: e - self)
@@ -357,7 +376,11 @@ class SReal:
         b = SReal.lift(o)
         if b is None:
             return self._arr(o, lambda e: self * e)
-        return ctx().norm(self.f * b.f, (b is self) or (self.nn and b.nn) or (self.f == b.f))
+        c = ctx()
+        if c.abs_of and self.f == b.f and self.f in c.abs_of:
+            x = c.abs_of[self.f]
+            return c.norm(x * x, True)
+        return c.norm(self.f * b.f, (b is self) or (self.nn and b.nn) or (self.f == b.f))
 
     __rmul__ = __mul__
 
@@ -390,6 +413,8 @@ class SReal:
         if e.denominator == 1:
             k = int(e)
             if k >= 0:
+                if k % 2 == 0 and ctx().abs_of and self.f in ctx().abs_of:
+                    return ctx().norm(ctx().abs_of[self.f] ** k, True)
                 return ctx().norm(self.f**k, self.nn or k % 2 == 0)
             ctx().require_nonzero(self)
             return ctx().norm((ctx().F.one / self.f) ** (-k), self.nn or k % 2 == 0)
@@ -406,7 +431,8 @@ class SReal:
     def _cmp(self, o, op, swap=False):
         b = SReal.lift(o)
         if b is None:
-            if isinstance(o, float) and o in (float("inf"), float("-inf")):
+            if _is_num(o) and float(o) in (float("inf"), float("-inf")):
+                o = float(o)
                 # self vs +-inf
                 pos = o > 0
                 # self < inf ; self <= inf ; self > inf ...
@@ -524,6 +550,7 @@ def sabs(x):
         n = t.f.numer
         if t.f.denom.is_ground and len(n) == 1 and sum(n.LM) == 1 and n.LC == 1:
             ctx()._nn_add(n.LM.index(1))  # the ite atom itself is the absolute value
+            ctx().abs_of[t.f] = x.f  # |x|^2 is rewritten to x^2
     return t
 
 
@@ -641,6 +668,7 @@ class Ctx:
         self.int_gens = set()
         self.last_model = None
         self.obligation_log = []
+        self.abs_of = {}  # FracElement of an |x| ite atom -> x
         self.defs = {}  # named atoms: gen -> FracElement definition
         self.def_eqs = []
         self._mono_axioms = []
@@ -1128,7 +1156,7 @@ class Ctx:
             setattr(c, name, list(getattr(self, name)))
         for name in ("pc_keys", "nonzero_keys", "pos_keys", "int_gens", "nn_gens"):
             setattr(c, name, set(getattr(self, name)))
-        for name in ("atom_cache", "sqrt_gens", "inputs", "elim", "_z3vars", "_monovars", "defs"):
+        for name in ("atom_cache", "sqrt_gens", "inputs", "elim", "_z3vars", "_monovars", "defs", "abs_of"):
             setattr(c, name, dict(getattr(self, name)))
         c._uf = {k: list(v) for k, v in self._uf.items()}
         c._ufc_cache = None
